@@ -19,6 +19,14 @@ pub fn seeds(tier: Tier) -> Vec<Seed> {
             }
         }
     }
+    for c in g::CONTEXTS {
+        for f in g::EFFECTFUL_CONSTANTS {
+            seeds.push(Seed { code: g::fill(c, f), family: "effectful constants" });
+            seeds.push(Seed { code: g::fill(c, &format!("{} or 0", f)), family: "effectful constants" });
+            seeds.push(Seed { code: g::fill(c, &format!("x and {}", f)), family: "effectful constants" });
+            seeds.push(Seed { code: g::fill(c, &format!("not {}", f)), family: "effectful constants" });
+        }
+    }
     for p in g::statement_programs() {
         seeds.push(Seed { code: p, family: "statement" });
     }
@@ -27,6 +35,15 @@ pub fn seeds(tier: Tier) -> Vec<Seed> {
     }
     for p in g::family_programs() {
         seeds.push(Seed { code: p, family: "families" });
+    }
+    for p in g::if_chain_programs(tier.pick(2, 3)) {
+        seeds.push(Seed { code: p, family: "if chains" });
+    }
+    for p in g::loop_chain_programs() {
+        seeds.push(Seed { code: p, family: "loop conditions" });
+    }
+    for p in g::if_expression_chain_programs(1) {
+        seeds.push(Seed { code: p, family: "if-expression chains" });
     }
     // Luau programs are in the property's domain too ("Lua 5.1/Luau program")
     for s in super::c06::seeds(tier) {
@@ -52,7 +69,7 @@ fn classify(ctx: &FailCtx) -> Option<String> {
 
 pub fn run(tier: Tier) -> Report {
     let mut report = Report::new("C01", "model_checking", tier);
-    report.rule = "seeds = contexts x expression fragments, two-hole contexts, scope programs S(n), metatable/loop/closure families; \
+    report.rule = "seeds = contexts x expression fragments, two-hole contexts, scope programs S(n), metatable/loop/closure families, every if statement of up to 2 (3 thorough) branches over 9 conditions (constant, unknown truthy and falsy, effectful, constant-but-effectful) x empty/effectful blocks x absent/empty/effectful else, while/repeat loops over the same conditions, if-expressions over the same conditions and 4 values; \
         BFS over the 13 default rules from parse(seed) in both parser modes until closure or the depth bound; every reachable state is \
         generated (retain_lines on the token graph; dense/readable on the token-less graph) and executed by luaref; a state is \
         non-trivial when it differs from the seed's AST (distinct_nontrivial counts distinct reached ASTs other than the seed)"
